@@ -19,7 +19,7 @@ for d in /verif/seeded/*/; do
     VERIF_REPO=$WT VERIF_CACHE=/tmp/seedcache VERIF_EVIDENCE=/tmp/seedev VERIF_REPLAY=/tmp/seedreplay ./check $Q --tier quick > /tmp/seedrun_${ID}_$Q.log 2>&1
     RC=$?
     NV=$(grep -c '^VIOLATION' /tmp/seedrun_${ID}_$Q.log)
-    KEY=$(grep -A1 '^VIOLATION' /tmp/seedrun_${ID}_$Q.log | grep obligation | head -1 | sed 's/^ *//' | cut -c1-260)
+    KEY=$(grep -A1 '^VIOLATION' /tmp/seedrun_${ID}_$Q.log | grep 'obligation=' | head -1 | sed 's/^ *//' | sed 's/ key=.*//' | cut -c1-120)
     echo -e "$ID\t$Q\t$RC\t$NV\t$KEY" >> $OUT
   done
 done
